@@ -82,6 +82,72 @@ theorem openReader_eq (src : Src) (encoding : String) (lowc : F) (chardet : Opti
         streamOf src (effEncoding src encoding chardet.1)) := by
   simp [openReader, file_reader_init_eq, file_reader_enter_init]
 
+/-! ## `SWCNames.cols`, `get_names`, the first half of `read_swc`, the prologue of `parse_swc` -/
+
+/-- `names.cols()`: id, type, x, y, z, r, pid - in this order -/
+def namesCols (nm : SWCNames7) : List String := [nm.id, nm.type, nm.x, nm.y, nm.z, nm.r, nm.pid]
+
+/-- `swc_names = SWCNames()`: the defaults of the class (extracted from the source on every run) -/
+def defaultNames : SWCNames7 :=
+  ⟨Gen.Consts.name_id, Gen.Consts.name_type, Gen.Consts.name_x, Gen.Consts.name_y, Gen.Consts.name_z, Gen.Consts.name_r, Gen.Consts.name_pid⟩
+
+theorem swc_names_cols_eq (nm : SWCNames7) : swc_names_cols nm = some (namesCols nm) := rfl
+
+theorem namesCols_length (nm : SWCNames7) : (namesCols nm).length = 7 := rfl
+
+theorem get_names_eq (names : Option SWCNames7) : get_names names = some (names.getD defaultNames) := rfl
+
+/-- **the first half of `read_swc`**: the names are defaulted, and `parse_swc` receives the file, THESE names, `extra_cols` and `encoding` -/
+theorem read_swc_front_eq {DF CM : Type} [Inhabited DF] [Inhabited CM]
+    (P : Src → SWCNames7 → Option (List String) → String → Option (DF × CM)) (src : Src) (xs : Option (List String)) (encoding : String)
+    (names : Option SWCNames7) :
+    read_swc_front P src xs encoding names =
+      (P src (names.getD defaultNames) xs encoding).map fun r => (names.getD defaultNames, r.1, r.2, ()) := by
+  simp only [read_swc_front, read_swc_front.body, Py.seq, Py.bind, get_names_eq]
+  cases P src (names.getD defaultNames) xs encoding <;> rfl
+
+/-- the seven fixed groups of the regular expression -/
+def reCols7 : List String :=
+  ["([0-9]+)", "([0-9]+)", Gen.Consts.reFloat, Gen.Consts.reFloat, Gen.Consts.reFloat, Gen.Consts.reFloat, "(-?[0-9]+)"]
+
+/-- the TEXT of `re_swc` for `k` extra columns: leading blanks, the `7 + k` groups separated by `\s+`, the optional tail, trailing blanks -/
+def reSwcText (k : Nat) : String :=
+  "^\\s*" ++ Py.strJoin "\\s+" (reCols7 ++ List.replicate k Gen.Consts.reFloat) ++ "((?:\\s+[+-.0-9eE]+)*)\\s*$"
+
+/-- the value a loop variable is left with -/
+def lastOr {α : Type} : List α → α → α
+  | [], d => d
+  | x :: xs, _ => lastOr xs x
+
+theorem prologue_for1 : ∀ (xs : List String) (v : parse_swc_prologue.V),
+    Py.forEach parse_swc_prologue.for1 xs v =
+      .next { v with c0_ := v.c0_ ++ List.replicate xs.length 1, underscore_ := lastOr xs v.underscore_ } := by
+  intro xs
+  induction xs with
+  | nil => intro v; simp [Py.forEach, lastOr]
+  | cons x xs ih =>
+    intro v
+    simp [Py.forEach, parse_swc_prologue.for1, ih, List.replicate_succ, lastOr]
+
+theorem prologue_for2 : ∀ (xs : List String) (v : parse_swc_prologue.V),
+    Py.forEach parse_swc_prologue.for2 xs v =
+      .next { v with c2_ := v.c2_ ++ List.replicate xs.length Gen.Consts.reFloat, underscore_ := lastOr xs v.underscore_ } := by
+  intro xs
+  induction xs with
+  | nil => intro v; simp [Py.forEach, lastOr]
+  | cons x xs ih =>
+    intro v
+    simp [Py.forEach, parse_swc_prologue.for2, ih, List.replicate_succ, lastOr]
+
+/-- **the prologue of `parse_swc`**: `int, int, float ×4, int` then `float` per extra column (0 = int, 1 = float); the regular expression
+text depends on the extras only through their NUMBER; the trailing group is group `7 + k + 1`; the header is `' '.join(names.cols())` -/
+theorem parse_swc_prologue_eq (nm : SWCNames7) (extras : List String) :
+    parse_swc_prologue nm extras =
+      some ([0, 0, 1, 1, 1, 1, 0] ++ List.replicate extras.length 1, reSwcText extras.length, 7 + (extras.length : Int) + 1,
+        Py.strJoin " " (namesCols nm), ()) := by
+  simp [parse_swc_prologue, parse_swc_prologue.body, Py.seq, Py.bindS, Py.bind, prologue_for1, prologue_for2, swc_names_cols_eq,
+    Py.finish, Py.len, reSwcText, reCols7]
+
 /-! ## `dict(zip(keys, vals))` with distinct keys: the value under the `j`-th key is the `j`-th value -/
 
 theorem get?_foldl_set_not_mem {κ ν : Type} [DecidableEq κ] : ∀ (zs : List (κ × ν)) (d : Dict κ ν) (k : κ), k ∉ zs.map (·.1) →
@@ -134,35 +200,40 @@ variable (linesOf : Src → Py.Stream L) (rowOf : L → Option (List Val × Bool
 def linesRead (src : Src) (encoding : String) (det : Option String) : Py.Stream L :=
   linesOf (streamOf src (effEncoding src encoding det))
 
-/-- **`parse_swc` front to back is the generated read loop on the normalised extra columns, an OPEN reader and the lines of the stream
-`__enter__` returned** - for every source kind and every option; the only further effect of the front end is the low-confidence warning -/
-theorem parseSwcFull_eq (cols : List String) (xs : Option (List String)) (src : Src) (encoding : String) (lowc : F)
+/-- **`parse_swc` front to back is the generated read loop on the keys `names.cols()`, the normalised extra columns, an OPEN reader and the
+lines of the stream `__enter__` returned** - for every source kind and every option; the only further effect of the front end is the
+low-confidence warning -/
+theorem parseSwcFull_eq (nm : SWCNames7) (xs : Option (List String)) (src : Src) (encoding : String) (lowc : F)
     (chardet : Option String × F) :
-    parseSwcFull linesOf rowOf commentOf isHeader blank cols xs src encoding lowc chardet =
-      (parse_swc rowOf commentOf isHeader blank cols (normExtras xs) ⟨some (), false⟩ (linesRead linesOf src encoding chardet.1)).map
+    parseSwcFull linesOf rowOf commentOf isHeader blank nm xs src encoding lowc chardet =
+      (parse_swc rowOf commentOf isHeader blank (namesCols nm) (normExtras xs) ⟨some (), false⟩ (linesRead linesOf src encoding chardet.1)).map
         fun p => (detectWarn src encoding lowc chardet, p) := by
-  simp [parseSwcFull, parse_swc_extras_eq, openReader_eq, toParseReader, linesRead]
+  simp [parseSwcFull, parse_swc_extras_eq, swc_names_cols_eq, openReader_eq, toParseReader, linesRead]
 
 /-- the tail of `read_swc` on the columns of a parsed table -/
-def backStages (intOf : Val → Int) (norm : σ → Int → σ × List Int) (fuel : Nat) (cols : List String) (mode : Option String) (srt rst : Bool)
+def backStages (intOf : Val → Int) (norm : σ → Int → σ × List Int) (fuel : Nat) (nm : SWCNames7) (mode : Option String) (srt rst : Bool)
     (cbs : σ) (wd : List Int) (wp : List Py.Exc) (df : Py.Dict String (List Val)) (cs : List C) : Option (Except Py.Exc (Out Val C σ)) :=
-  (colInt intOf df cols 0).bind fun ids => (colInt intOf df cols 6).bind fun pids =>
-  (colInt intOf df cols 1).bind fun types => (colInt intOf df cols 5).bind fun rs =>
+  (colInt intOf df nm.id).bind fun ids => (colInt intOf df nm.pid).bind fun pids =>
+  (colInt intOf df nm.type).bind fun types => (colInt intOf df nm.r).bind fun rs =>
   (RefineRepair.fixStage norm fuel ids pids types mode cbs).bind fun f =>
     (RefineRepair.normStage fuel ids f.1 f.2.1 rs srt rst).bind fun g =>
       (RefineRepair.checkStage fuel g.1 g.2.1 g.2.2.2).map fun w =>
         .ok ⟨df, cs, g.1, g.2.1, g.2.2.1, g.2.2.2, wd, wp, w, f.2.2⟩
 
-/-- **`read_swc` is: the generated read loop (as above); an exception of the loop is the exception of the call, whatever the options;
-otherwise repair → normalisation → checks of the translated callees on the columns `names.id / pid / type / r` of the table** -/
-theorem readSwcFull_eq (intOf : Val → Int) (norm : σ → Int → σ × List Int) (fuel : Nat) (cols : List String) (src : Src)
-    (xs : Option (List String)) (mode : Option String) (srt rst : Bool) (encoding : String) (lowc : F) (chardet : Option String × F) (cbs : σ) :
-    readSwcFull linesOf rowOf commentOf isHeader blank intOf norm fuel cols src xs mode srt rst encoding lowc chardet cbs =
-      (parse_swc rowOf commentOf isHeader blank cols (normExtras xs) ⟨some (), false⟩ (linesRead linesOf src encoding chardet.1)).bind
+/-- **`read_swc` is: the generated read loop (as above, under the defaulted names); an exception of the loop is the exception of the call,
+whatever the options; otherwise repair → normalisation → checks of the translated callees on the columns `df[names.id]`, `df[names.pid]`,
+`df[names.type]`, `df[names.r]`** -/
+theorem readSwcFull_eq (intOf : Val → Int) (norm : σ → Int → σ × List Int) (fuel : Nat) (src : Src)
+    (xs : Option (List String)) (mode : Option String) (srt rst : Bool) (encoding : String) (names : Option SWCNames7) (lowc : F)
+    (chardet : Option String × F) (cbs : σ) :
+    readSwcFull linesOf rowOf commentOf isHeader blank intOf norm fuel src xs mode srt rst encoding names lowc chardet cbs =
+      (parse_swc rowOf commentOf isHeader blank (namesCols (names.getD defaultNames)) (normExtras xs) ⟨some (), false⟩
+          (linesRead linesOf src encoding chardet.1)).bind
         fun p => match p.2.2 with
           | .error e => some (.error e)
-          | .ok (df, cs) => backStages intOf norm fuel cols mode srt rst cbs (detectWarn src encoding lowc chardet) p.1 df cs := by
-  simp only [readSwcFull, parseSwcFull_eq, Option.bind_map]
+          | .ok (df, cs) =>
+            backStages intOf norm fuel (names.getD defaultNames) mode srt rst cbs (detectWarn src encoding lowc chardet) p.1 df cs := by
+  simp only [readSwcFull, read_swc_front_eq, parseSwcFull_eq, Option.bind_map, Option.map_map]
   congr 1
   funext p
   rcases p with ⟨ws, rd, (e | ⟨df, cs⟩)⟩
